@@ -440,6 +440,11 @@ def run_check(prop, tier, seed, budget_scale=1.0):
             infra_problems.append("%d worker deaths without a crash report in batch %s" % (b.unreported_deaths, spec.get("name")))
         for idx, v, plan in b.violations:
             s = sym.sig(v["sig"])
+            if key[0] == "assert" and v["cls"] == "CRASH_ABRT":
+                # the library's own precondition assert fired on a generated history: the generator left the
+                # documented contract -- a defect of this machinery, never a verdict about RandomX
+                infra_problems.append("contract audit: library assert fired in run %d (%s)" % (idx, s))
+                continue
             if v["cls"] in relevant:
                 k = (v["cls"], s)
                 if k not in found:
